@@ -125,6 +125,9 @@ def r20_1(ctx):
     for g in nested_functions(f).values():
         has_guard(ctx, g, lambda t, k: "notinself._meta" in t and "notinself._placeholders" in t and k == "raise", "Stage.set_initial: unknown symbol rejected", "guess on unknown symbol", "raise")
         has_guard(ctx, g, lambda t, k: "self.parameters.values()" in t and not t.startswith("not") and k == "raise", "Stage.set_initial: parameter rejected", "guess on a parameter", "raise")
+        # among the placeholders only the horizon symbols (ocp.T, ocp.t0) stand for decision variables that can be given a guess
+        has_guard(ctx, g, lambda t, k: "inself._placeholders" in t and "self.T" in t and "self.t0" in t and k == "raise", "Stage.set_initial: a placeholder other than ocp.T / ocp.t0 is rejected",
+                  "set_initial(ocp.at_t0(x), v) / at_tf / integral is accepted and silently dropped", "if var in self._placeholders and not (is_equal(var, self.T) or is_equal(var, self.t0)): raise")
     # 9. grid names
     f = P.own_method("Stage", "subject_to")
     has_guard(ctx, f, lambda t, k: t.startswith("gridnotin[") and k == "raise", "Stage.subject_to: unknown grid rejected", "unknown grid name", "if grid not in [...]: raise")
